@@ -71,7 +71,12 @@ def eval_config(ctx, cfg, with_model=True):
     nsteps = 12
     T = cfg.get("T") or ((1e-3 * nsteps) if not cfg["adaptive"] else 0.6)
     opts = runs.options(solve_time=T, save_every=(20 if cfg.get("long") else 2), output_file=out, progress_interval=10**9, **o)
-    sol = tdgl.solve(dev, opts)  # no field, no current, epsilon = 1
+    try:
+        sol = tdgl.solve(dev, opts)  # no field, no current, epsilon = 1
+    except Exception as e:  # noqa: the quiet state is a legitimate input; a run that dies has not stayed stationary
+        fail("quiet-run-raised", f"the undriven run raised {type(e).__name__}: {str(e)[:140]}", error=f"{type(e).__name__}: {str(e)[:140]}")
+        ctx.case((cfg["dev"], cfg["gamma"], cfg["adaptive"], cfg["screening"], "raised"))
+        return first
     frames, _ = runs.parse_h5(sol.path)
     worst = 0.0
     for fr in frames:
